@@ -22,14 +22,21 @@ func init() {
 				"dominated by a newScope of the same function (or is a rebinding under `_, ok := m[k]; ok`), and helpers that declare at depth 0 are only called below a push; (C07.ctx) every change of " +
 				"Runtime.context / Runtime.content / the output Writer is preceded by a load into a local and followed on every normal path by a store of that local back (or a deferred restore); " +
 				"(C07.blocks) block tables are only installed into a freshly pushed scope; (C07.order) identifier lookup consults scope chain → Set globals → built-ins in that order; (C07.set) `=` " +
-				"walks the scope chain to the end and fails after it; (C07.alias) no Range method returns a view of ranger state that the next Range call mutates. (C07.set, continued) setValue leaves a scope for its parent only where its presence test for the name is known to have failed.",
-			NotDecided:  "unwinding by panic (C10, C13); the values stored; shadowing between a caller-supplied VarMap and globals beyond the lookup order; user-defined Rangers.",
+				"walks the scope chain to the end and fails after it; (C07.alias) no Range method returns a view of ranger state that the next Range call mutates. (C07.set, continued) setValue leaves a scope for its parent only where its presence test for the name is known to have failed. (C07.swallow) every function inside the evaluation, other than executeTry (C13.restore), whose deferred guard recovers a panic and returns normally — isSet — saves, before the guard is installed, every piece of runtime state that some construct puts back only by a plain statement (the set M of C13.restore: scope chain, context, content; computed on every run) and stores it back on every recovered path of the guard; otherwise a failure swallowed by isset below a range, a block or YieldBlock leaves '.', the variables or the block content of the failed construct in place for the rest of the template.",
+			NotDecided:  "unwinding by a panic that ends Execute (C10) or a try body (C13); the values stored; shadowing between a caller-supplied VarMap and globals beyond the lookup order; user-defined Rangers.",
 			Assumptions: []string{"AST nodes, Template and Set are immutable during execution (C10.ast, C11.frozen): facts about their fields survive calls"},
 			Trusted:     commonTrusted,
 		},
 		Mutants: []Mutant{
+			{Name: "isset swallows a failure without putting the runtime state back (original defect)", File: "eval.go", Old: "\t\t\t// something panicked while evaluating node\n\t\t\tst.scope, st.context, st.content = scope, context, content\n", New: "\t\t\t// something panicked while evaluating node\n\t\t\t_, _, _ = scope, context, content\n", Rule: "C07.swallow"},
+			{Name: "isset puts the scope back but not the context", File: "eval.go", Old: "\t\t\t// something panicked while evaluating node\n\t\t\tst.scope, st.context, st.content = scope, context, content\n", New: "\t\t\t// something panicked while evaluating node\n\t\t\tst.scope, st.content = scope, content\n\t\t\t_ = context\n", Rule: "C07.swallow"},
+			{Name: "equivalent: isset puts the state back whether or not something was recovered", File: "eval.go", Old: "\t\tif r := recover(); r != nil {\n\t\t\t// something panicked while evaluating node\n\t\t\tst.scope, st.context, st.content = scope, context, content\n", New: "\t\tr := recover()\n\t\tst.scope, st.context, st.content = scope, context, content\n\t\tif r != nil {\n\t\t\t// something panicked while evaluating node\n", Rule: "-"},
 			{Name: "new per-call scratch state on the runtime that is never put back (agent seed C14/2 seen from C07)", File: "eval.go", Old: "\targValues := make([]reflect.Value, numArgs)\n", New: "\tif cap(st.argBuf) < numArgs {\n\t\tst.argBuf = make([]reflect.Value, numArgs, numArgs+4)\n\t}\n\targValues := st.argBuf[:numArgs]\n", More: []Edit{{File: "eval.go", Old: "\tcontext reflect.Value\n}", New: "\tcontext reflect.Value\n\targBuf  []reflect.Value\n}"}}, Rule: "C07.ctx"},
-			{Name: "equivalent: a nesting-depth counter that is incremented and decremented around list execution", File: "eval.go", Old: "\t\t\tif isTrue(st.evalPrimaryExpressionGroup(node.Expression)) {\n\t\t\t\tifReturn = st.executeList(node.List)\n\t\t\t}", New: "\t\t\tif isTrue(st.evalPrimaryExpressionGroup(node.Expression)) {\n\t\t\t\tst.depth++\n\t\t\t\tifReturn = st.executeList(node.List)\n\t\t\t\tst.depth--\n\t\t\t}", More: []Edit{{File: "eval.go", Old: "\tcontext reflect.Value\n}", New: "\tcontext reflect.Value\n\tdepth   int\n}"}, {File: "exec.go", Old: "\tst.Writer = w\n", New: "\tst.Writer = w\n\tst.depth = 0\n"}}, Rule: "-"},
+			{Name: "equivalent: a nesting-depth counter that is incremented and decremented around list execution", File: "eval.go", Old: "\t\t\tif isTrue(st.evalPrimaryExpressionGroup(node.Expression)) {\n\t\t\t\tifReturn = st.executeList(node.List)\n\t\t\t}", New: "\t\t\tif isTrue(st.evalPrimaryExpressionGroup(node.Expression)) {\n\t\t\t\tst.depth++\n\t\t\t\tifReturn = st.executeList(node.List)\n\t\t\t\tst.depth--\n\t\t\t}", More: []Edit{{File: "eval.go", Old: "\tcontext reflect.Value\n}", New: "\tcontext reflect.Value\n\tdepth   int\n}"}, {File: "exec.go", Old: "\tst.Writer = w\n", New: "\tst.Writer = w\n\tst.depth = 0\n"},
+				// (the counter is state that a plain statement puts back: whoever swallows a panic restores it, like scope, context and content)
+				{File: "eval.go", Old: "\tscope, context, content := st.scope, st.context, st.content\n\n\tdefer func() {\n\t\tif r := recover(); r != nil {\n\t\t\t// something panicked while evaluating node\n\t\t\tst.scope, st.context, st.content = scope, context, content\n", New: "\tscope, context, content, depth := st.scope, st.context, st.content, st.depth\n\n\tdefer func() {\n\t\tif r := recover(); r != nil {\n\t\t\t// something panicked while evaluating node\n\t\t\tst.scope, st.context, st.content, st.depth = scope, context, content, depth\n"},
+				{File: "eval.go", Old: "\tscope, context, content := st.scope, st.context, st.content\n\n\tdefer func() {\n\t\tr := recover()\n", New: "\tscope, context, content, depth := st.scope, st.context, st.content, st.depth\n\n\tdefer func() {\n\t\tr := recover()\n"},
+				{File: "eval.go", Old: "\t\t\t// st.Writer is already set to its original value since the later defer ran first\n\t\t\tst.scope, st.context, st.content = scope, context, content\n", New: "\t\t\t// st.Writer is already set to its original value since the later defer ran first\n\t\t\tst.scope, st.context, st.content, st.depth = scope, context, content, depth\n"}}, Rule: "-"},
 			{Name: "content closure restores '.' from a save taken by the enclosing call (agent seed C07/2, reduced)", File: "eval.go", Old: "\t\t\tif expression != nil {\n\t\t\t\tcontext := st.context\n\t\t\t\tst.context = st.evalPrimaryExpressionGroup(expression)\n\t\t\t\tst.executeList(content)\n\t\t\t\tst.context = context\n\t\t\t} else {", New: "\t\t\tif expression != nil {\n\t\t\t\tst.context = st.evalPrimaryExpressionGroup(expression)\n\t\t\t\tst.executeList(content)\n\t\t\t\tst.context = mycontext\n\t\t\t} else {",
 				More: []Edit{{File: "eval.go", Old: "\tmycontent := st.content\n\tif content != nil {", New: "\tmycontent, mycontext := st.content, st.context\n\tif content != nil {"}}, Rule: "C07.ctx"},
 			{Name: "if with := forgets to pop its scope", File: "eval.go", Old: "\t\t\tif isLet {\n\t\t\t\tst.releaseScope()\n\t\t\t}\n\t\tcase NodeRange:", New: "\t\t\t_ = isLet\n\t\tcase NodeRange:", Rule: "C07.scope"},
@@ -104,6 +111,7 @@ func runC07(c *an.Ctx) {
 	p := c.P
 	fns, poolFns := pairFns(p)
 	c.Expect("C07.scope", "functions taking part in paired operations", len(fns), 10)
+	c07swallow(c)
 	results := map[*an.Fn]*pairResult{}
 	nPush, nPop, nDecl, nBlocks, nFieldFns := 0, 0, 0, 0, 0
 	declarers := map[*an.Fn][]token.Pos{}
